@@ -47,7 +47,9 @@ TRUSTED_EXTRA = [
     "input it describes as a packed claim unpacks under the ABI of its selector and every input it describes as raw does not",
     "props/c20.py transcribes a packed claim as (generation, global index, details) and a 32-hash proof as mkproof base step only when all 32 "
     "hashes have exactly that form",
-    "hook /repo/bridgesync/verif_export_c20.go (build tag verif): VerifC20SetClaimCalldata = (*Claim).setClaimCalldata",
+    "hook /repo/bridgesync/verif_export_c20.go (build tag verif): VerifC20SetClaimCalldata = (*Claim).setClaimCalldata; hook "
+    "verif_export_appender.go: VerifBuildAppender = buildAppender (about half of the cases also go through the REAL ClaimEvent handlers "
+    "of both generations with syncFullClaims on: ABI-packed log in, Claim out; the Gallina event decoder reads the same log data)",
 ]
 
 ERR_CODE = {"": 0, "notfound": 1, "root_reverted": 2, "short": 3, "selector": 4, "unpack": 5, "rpc": 6, "panic": 98, "other": 99}
@@ -164,8 +166,14 @@ def coq_case(o):
     i = o["in"]
     p = Pool()
     trace = "None" if (i["kind"] == "rpcfail" or not i.get("root")) else "(Some %s)" % node_term(p, i["root"])
-    term = "K %s %s %s %s %s" % (p.n(hx(i["bridge"]) % M160), trace, claim_obs(p, o["claim0"]),
-                                 p.n(ERR_CODE.get(o["err"], 99)), claim_obs(p, o["claim"]))
+    v = o.get("via_log")
+    head, tail = "K", ""
+    if v:
+        d = v.get("data", "")
+        words = "[" + "; ".join(p.n(int(d[k:k + 64], 16)) for k in range(0, len(d), 64)) + "]"
+        head, tail = "KL", " (%s, %s, %s)" % (cbool(v["pre"]), words, cbool(v["agree"]))
+    term = "%s %s %s %s %s %s%s" % (head, p.n(hx(i["bridge"]) % M160), trace, claim_obs(p, o["claim0"]),
+                                    p.n(ERR_CODE.get(o["err"], 99)), claim_obs(p, o["claim"]), tail)
     return p.wrap(term)
 
 
@@ -214,6 +222,7 @@ def distribution(outs):
         if i.get("root"):
             _gens(i["root"], frames)
     d.update(frames)
+    d["claims_also_through_the_real_log_appender"] = sum(1 for o in outs if o.get("via_log"))
     d["max_frames"] = max([o.get("frames", 0) for o in outs] or [0])
     d["total_frames"] = sum(o.get("frames", 0) for o in outs)
     return dict(d)
